@@ -460,8 +460,8 @@ def c02_r4(ctx):
                     dnt = f.edges_of_call_variant(d, "NotThere")
                     if not f.dominated_by_edges(bb, dnt | {(a, b2) for (a, b2) in nt if False}):
                         # not dominated by download-NotThere: allowed only if the download was not attempted on that path
-                        r = f.reach([0], avoid_edges=dnt)
-                        if bb in r and d.bb in {x for x in r if bb in f.reach([x])}:
+                        # (reachable from the download itself without its NotThere edge)
+                        if bb in f.reach(list(f.succ[d.bb]), avoid_edges=dnt):
                             ctx.viol((f.id, "rebuild-despite-download"), "NeedsRebuild can be returned after a successful download", f.where(bb, idx))
             ctx.ok()
     # the restore's caller maps Done to Recovered (shared with C20.R2)
@@ -558,6 +558,8 @@ def c01_r3(ctx):
             ctx.inst("remembered vector at %s" % cc.fn.id, cc.where)
             vo = cc.fn.origins_of_operand(cc.args[pi - 1])
             good = vo and all(is_call(o) and o[0][3] in (HIST_GET, DL_GET) and o[1:] == (("variant", "Some"), ("field", 0)) for o in vo)
+            if not good and vo and any(o[0][0] == "call" and o[0][3].split("::")[0] not in ("std", "core", "alloc") and o[0][3] not in ctx.P.fns for o in vo):
+                raise AnalysisError("idiom not recognised: what %s resolves against comes out of an unresolved trait method (%s)" % (cc.fn.id, sorted(o[0][3] for o in vo if o[0][0] == "call")[0]))
             if not good:
                 ctx.viol((cc.fn.id, "remembered-not-lookup"), "targets are resolved against something other than the history lookup result (%s)" % sorted(map(fmt_origin, vo)), cc.where)
             else:
